@@ -113,6 +113,35 @@ func c19One(c *Ctx, gc *GCase, sub string, local map[string]int64) {
 			r.Violation("privileges-not-a-function-of-the-statement", det(fmt.Sprintf("first answer %s; after the caller overwrote the returned list the same statement answers %s and a fresh parse answers %s", firstAnswer, a, o)))
 			return
 		}
+		// fail, repair, ask again: while a program is still building the
+		// statement a source slot (at any depth) is empty and the call cannot
+		// answer; once the same objects are complete it answers as before
+		if mon.Hash64(gc.Text)%3 == 0 {
+			var sels []*influxql.SelectStatement
+			influxql.WalkFunc(st, func(n influxql.Node) {
+				if s, ok := n.(*influxql.SelectStatement); ok && len(s.Sources) > 0 {
+					sels = append(sels, s)
+				}
+			})
+			if len(sels) > 0 {
+				victim := sels[len(sels)-1]
+				k := len(victim.Sources) - 1
+				saved := victim.Sources[k]
+				var repaired influxql.ExecutionPrivileges
+				var rerr error
+				for round := 0; round < 3; round++ {
+					victim.Sources[k] = nil
+					mon.Try(func() { _, _ = st.RequiredPrivileges() })
+					victim.Sources[k] = saved
+					mon.Try(func() { repaired, rerr = st.RequiredPrivileges() })
+					if a := fmt.Sprintf("%+v", repaired); rerr != nil || a != firstAnswer {
+						r.Violation("privileges-not-a-function-of-the-statement", det(fmt.Sprintf("first answer %s; a call made while a source slot was still empty failed, and after the slot was filled in again the statement answers %s (err %v)", firstAnswer, a, rerr)))
+						return
+					}
+				}
+				local["failed-call-then-repaired"]++
+			}
+		}
 		local["answer-survives-caller-edit"]++
 	}
 	// a source list that is present but empty (built by a caller, or decoded)
